@@ -11,8 +11,10 @@ NormMsg(m) == CASE m.t = "tx" -> [m EXCEPT !.tx = NormWit(@)]
                 [] m.t = "block" -> [m EXCEPT !.block = NormKind("block", @)]
                 [] OTHER -> m
 \* the frame at pos is exactly what framing produces: command NUL-padded, payload fully used
+\* (a version message announcing less than 70001 cannot be produced by framing: the writer always writes every field)
 Canonical(e) == LET hd == SubSeq(buf, pos + 1, pos + 24) IN
-  SubSeq(hd, 5, 16) = PadCmd(UpToNul(SubSeq(hd, 5, 16))) /\ e.used = e.pos - pos - 24
+  /\ SubSeq(hd, 5, 16) = PadCmd(UpToNul(SubSeq(hd, 5, 16))) /\ e.used = e.pos - pos - 24
+  /\ (e.m.t = "version" => Int32Val(e.m.ver) >= 70001)
 IsTruncErr(o) == o.k = "exc" /\ o.cls = "SerializationTruncationError"
 FrameClauses(r) ==
   << <<"frame-bytes", r.out.k = "ret" /\ r.out.bytes = Frame(r.chain, r.in.msg)>>,
